@@ -72,6 +72,9 @@ class VHDX(AlignedStream):
         if self.header.signature != b"head":
             raise InvalidSignature(f"Invalid header signature: {self.header.signature}")
 
+        if self.header.version != 1:
+            raise InvalidVirtualDisk(f"Unsupported VHDX version: {self.header.version}")
+
         region_table1 = RegionTable(fh, 3 * ALIGNMENT)
         region_table2 = RegionTable(fh, 4 * ALIGNMENT)
 
